@@ -183,7 +183,8 @@ func (t *TicketID) Decode(d *Decoder) error {
 func (t *TicketAttempt) Decode(d *Decoder) error {
 	cLog(Cyan, "Decoding TicketAttempt")
 
-	val, err := d.DecodeLength()
+	// a compact integer, not a sequence length
+	val, err := d.DecodeIntegerMax(math.MaxUint8)
 	if err != nil {
 		return err
 	}
@@ -916,7 +917,7 @@ func (w *WorkReport) Decode(d *Decoder) error {
 
 	// Work report core index is compact
 	// https://github.com/davxy/jam-test-vectors/commit/fed98559dabaa7058d7f9d83cb8c9353bd78d544
-	coreIndex, err := d.DecodeLength()
+	coreIndex, err := d.DecodeIntegerMax(math.MaxUint16)
 	if err != nil {
 		return err
 	}
